@@ -16,6 +16,7 @@ hypothesis (`Cors.RestOK`).
 -/
 import Restful.Lemmas.Cors
 import Restful.Lemmas.StateShape
+import Restful.Lemmas.TieCors
 namespace Restful
 namespace Props
 open Str Cors
@@ -372,6 +373,13 @@ end C08Example
 -- also: Restful.StateShape.globals_shape
 -- also: Restful.StateShape.consts_shape
 -- also: Restful.StateShape.cors_shape
+
+/-! The regenerated tie (tools/gotrans → Gen/Translated.lean, Lemmas/Tie*.lean): the origin test this
+    property's model contains (`Cors.isOriginAllowed`: the search loop over `AllowedDomains`, the two
+    calls of `AllowedDomainFunc` and their arguments, `strings.ToLower`) IS the one translated from
+    cors_filter.go on this run. -/
+-- also: Restful.Tie.cors_domain_loop
+-- also: Restful.Tie.cors_is_origin_allowed
 
 end Props
 end Restful
